@@ -115,6 +115,9 @@ type World struct {
 	secrets       map[string]string // secret value (hex) -> label
 	revealed      map[string]bool   // swap id -> a coop_close with a key has been sent
 	crashNote     *Obs
+	openings      map[string]int  // swap id -> opening transactions broadcast
+	spentBack     map[string]bool // swap id -> a coop/csv spend of the opening output was broadcast
+	curSwap       string          // swap id the scenario is driving
 	btcOn, lbtcOn bool
 }
 
@@ -145,7 +148,7 @@ func newWorld(cfg WorldCfg) *World {
 	if err != nil {
 		panic(err)
 	}
-	w := &World{dir: dir, faults: map[string][]string{}, idNames: map[string]string{}, secrets: map[string]string{}, revealed: map[string]bool{}}
+	w := &World{dir: dir, faults: map[string][]string{}, idNames: map[string]string{}, secrets: map[string]string{}, revealed: map[string]bool{}, openings: map[string]int{}, spentBack: map[string]bool{}}
 	w.pol = &simPolicy{w: w, acceptAll: cfg.AcceptAll, allow: map[string]bool{}, susp: map[string]bool{}, minMsat: cfg.MinSwapMsat, allowNew: true}
 	for _, p := range cfg.Allowlist {
 		w.pol.allow[p] = true
@@ -388,6 +391,24 @@ func (l *logStore) UpdateData(s *swap.SwapStateMachine) error {
 		fl["revealed"] = "0"
 		if l.w.revealed[s.SwapId.String()] {
 			fl["revealed"] = "1"
+		}
+		id := s.SwapId.String()
+		fl["openings"] = fmt.Sprint(l.w.openings[id])
+		fl["spentback"] = b01(l.w.spentBack[id])
+		fl["resend"] = b01(l.w.mgr.active[id])
+		fl["suspicious"] = b01(l.w.pol.susp[s.Data.PeerNodeId])
+		fl["csvwatch"], fl["invpaid"] = "0", "0"
+		for _, ch := range []*simChain{l.w.btc, l.w.lbtc} {
+			for _, wt := range ch.csvWatch {
+				if wt.swapId == id {
+					fl["csvwatch"] = "1"
+				}
+			}
+		}
+		for _, inv := range l.w.ln.invoices {
+			if inv.ours && inv.swapId == id && inv.kind == swap.INVOICE_CLAIM && inv.paidToUs {
+				fl["invpaid"] = "1"
+			}
 		}
 		l.w.note(Obs{Kind: "persist", Swap: l.w.name(s.SwapId.String()), A: fl})
 	}
@@ -869,7 +890,14 @@ func (c *simChain) AddWaitForCsvTx(swapID, txID string, vout, startingHeight, cs
 	if c.w.dead {
 		return
 	}
-	c.csvWatch = append(c.csvWatch, simWatch{swapID, txID, vout, startingHeight, csv, hex.EncodeToString(script)})
+	// the real watchers key their CSV watch list by swap id: a second registration replaces the first
+	kept := c.csvWatch[:0]
+	for _, wt := range c.csvWatch {
+		if wt.swapId != swapID {
+			kept = append(kept, wt)
+		}
+	}
+	c.csvWatch = append(kept, simWatch{swapID, txID, vout, startingHeight, csv, hex.EncodeToString(script)})
 	c.w.note(Obs{Kind: "watchcsv", Swap: c.w.name(swapID), A: map[string]string{"chain": c.name, "vout": fmt.Sprint(vout), "start": fmt.Sprint(startingHeight), "csv": fmt.Sprint(csv), "txid": txID[:min(8, len(txID))]}})
 }
 func (c *simChain) AddConfirmationCallback(f func(swapId string, txHex string, err error) error) {
@@ -986,7 +1014,8 @@ func (c *simChain) CreateOpeningTransaction(p *swap.OpeningParams) (string, stri
 	if err != nil {
 		return "", "", "", 0, 0, err
 	}
-	c.txs = append(c.txs, &simTx{txid: txid, hex: txHex, kind: "opening"})
+	c.txs = append(c.txs, &simTx{txid: txid, hex: txHex, kind: "opening", swap: c.w.curSwap})
+	c.w.openings[c.w.curSwap]++
 	c.balance -= p.Amount + c.fee
 	c.w.note(Obs{Kind: "broadcast", A: map[string]string{"chain": c.name, "tx": "opening", "txid": txid[:8], "amount": fmt.Sprint(p.Amount), "csv": fmt.Sprint(csv), "vout": fmt.Sprint(c.voutShift), "hash": p.ClaimPaymentHash[:min(8, len(p.ClaimPaymentHash))]}})
 	if rep {
@@ -1009,7 +1038,10 @@ func (c *simChain) spend(kind string, p *swap.OpeningParams, cp *swap.ClaimParam
 	}
 	c.nAddr++
 	txid := hex.EncodeToString(sha256.New().Sum([]byte(fmt.Sprintf("%s-%s-%d", kind, openingId, c.nAddr))))[:64]
-	c.txs = append(c.txs, &simTx{txid: txid, kind: kind, spends: openingId})
+	c.txs = append(c.txs, &simTx{txid: txid, kind: kind, spends: openingId, swap: c.w.curSwap})
+	if kind == "csv" || kind == "coop" {
+		c.w.spentBack[c.w.curSwap] = true
+	}
 	c.w.note(Obs{Kind: "broadcast", A: map[string]string{"chain": c.name, "tx": kind, "spends": openingId[:min(8, len(openingId))]}})
 	if rep {
 		return "", "", "", errDead
